@@ -129,6 +129,19 @@ def buffer_discipline(ctx, R1, repo, res, rv):
     ctx.instance(R1, "socket_read_task[decode again after a message]", ok,
                  "after handing over a message the loop goes back to the socket read instead of decoding the rest of the buffer: a second frame "
                  "that arrived in the same read waits for more bytes", loc(g.nodes[proc[0]].ast))
+    # after every append the decoder sees the buffer before the next read (only a disconnected state may skip it)
+    ext_nodes = [i for n in ext for i in g.ids_of(n)]
+    state_edges = set()
+    for n in g.nodes:
+        if n.kind == "test" and "_connection_state" in unparse(n.ast):
+            state_edges |= {(n.id, "true"), (n.id, "false")}
+    w = None
+    for en in ext_nodes:
+        for rd_n in reads:
+            w = w or path_avoiding(g, en, rd_n, set(rv.decode_nodes), state_edges)
+    ctx.instance(R1, "socket_read_task[every append is followed by a decode]", w is None,
+                 "a path goes from appending a chunk back to the socket read without running the decoder on the buffer: a frame completed by that chunk "
+                 "stays undelivered until some later read", loc(ext[0]), [repr(g.nodes[i]) for i in (w or [])][-8:])
     # the bytes read are the ones appended
     rd = g.nodes[reads[0]].ast
     read_name = unparse(rd.targets[0]) if isinstance(rd, ast.Assign) else None
@@ -182,15 +195,16 @@ def consumed_contract(ctx, R2, dv):
     g, fn = dv.cfg, dv.fn
     start_name = None
     marker = None
-    for c, r, lit in dv.searches():
-        if r == dv.buf:
-            p = getattr(c, "_parent", None)
-            if isinstance(p, ast.Assign) and isinstance(p.targets[0], ast.Name):
-                start_name = p.targets[0].id
-                marker = lit
+    c, _r, lit = dv.start_search()
+    p = getattr(c, "_parent", None)
+    if isinstance(p, ast.Assign) and isinstance(p.targets[0], ast.Name):
+        start_name = p.targets[0].id
+        marker = lit
     if start_name is None or marker is None:
         raise AnalysisError("decode: `start = buffer.find(marker)` not found")
     n_missing = 0
+    from sa.decoder import delimited_flags
+    flags = delimited_flags(dv)
     for r in dv.returns:
         cls = dv.length_class(r)
         if dv.is_message_return(r):
@@ -210,10 +224,19 @@ def consumed_contract(ctx, R2, dv):
                 m = re.fullmatch(r"(.+) > (.+)", atom)
                 if tv and m and f"len({dv.buf})" in m.group(2):
                     # only the innermost such test counts: the return must sit directly under it
-                    kind = "frame-longer-than-buffer" if directly_under(g, r.id, atom) else kind
+                    kind = "frame-longer-than-buffer" if directly_under(g, r.id, atom, flags) else kind
         if kind is None:
             continue
         n_missing += 1
+        delim = any((f, True) in fs for f in flags)
+        open_ = any((f, False) in fs for f in flags)
+        if kind != "no-marker" and delim:
+            # the frame is all there (next frame or its own trailer seen): a malformed verdict, it consumes the frame
+            ok = cls == "FRAME"
+            ctx.instance(R2, f"Codec.decode[{kind}, frame delimited]", ok,
+                         f"a delimited frame on the '{kind}' path reports `{short(r.ast.value.elts[1])}` ({cls}) instead of the frame's own extent", loc(r.ast),
+                         sample={"rule": R2, "path": kind + "/delimited", "class": cls, "line": r.line})
+            continue
         if kind == "no-marker":
             ok = cls == "ALL-BUT-TAIL" and kept_tail_ok(dv, r, marker)
             what = ("with no complete marker in the buffer the decoder must keep the longest buffer suffix that is a proper prefix of the marker; "
@@ -227,10 +250,12 @@ def consumed_contract(ctx, R2, dv):
         raise AnalysisError(f"decode: only {n_missing} missing-data return paths recognised (no-marker, too-few-fields, frame-longer-than-buffer expected)")
 
 
-def directly_under(g, rid, atom):
+def directly_under(g, rid, atom, ignore=()):
     """Is the return inside the branch of the test that carries ``atom`` with no other test between?"""
     best = None
     for t, lab in g.guards(rid, exc=False):
+        if isinstance(t, ast.Name) and t.id in ignore:
+            continue  # the 'frame is delimited' flag may refine the verdict below the test
         if best is None or t.lineno >= best[0].lineno:
             best = (t, lab)
     return best is not None and (atom, True) in facts(best[0], best[1] == "true")
